@@ -631,7 +631,8 @@ class C04(Check):
         dec2 = np.array(case['dec2'], dtype='d')
         m = float(case['m'])
         n1, n2 = ra1.size, ra2.size
-        S = R.sep_matrix(ra1, dec1, ra2, dec2)
+        S = R.checked_sep_matrix(ra1, dec1, ra2, dec2)       # chord formula, cross-checked against Vincenty
+        out.count('reference_selfchecks')
         sure, maybe = R.classify(S, m)
         nband = int((maybe & ~sure).sum())
         if nband:
